@@ -219,6 +219,9 @@ func (c *Conn) readMessage() (*Message, error) {
 	}
 	var pr storage.PieceReader
 	if p2pMessage.Type == p2p.Message_PIECE_PAYLOAD {
+		if p2pMessage.PiecePayload == nil {
+			return nil, errors.New("piece payload message has no body")
+		}
 		// For payload messages, we must read the actual payload to the connection
 		// after reading the message.
 		payload, err := c.readPayload(p2pMessage.PiecePayload.Length)
